@@ -778,6 +778,8 @@ pub fn command(cmd: &str, args: &[String]) {
         "api" if args.get(0).map(|s| s.as_str()) == Some("editconform1") => api_editconform1(&args[1..]),
         "api" if args.get(0).map(|s| s.as_str()) == Some("editprobe") => api_editprobe(&args[1..]),
         "api" if args.get(0).map(|s| s.as_str()) == Some("dupes") => api_dupes(&args[1..]),
+        "api" if args.get(0).map(|s| s.as_str()) == Some("sortperm") => api_sortperm(&args[1..]),
+        "api" if args.get(0).map(|s| s.as_str()) == Some("sortperm1") => api_sortperm1(&args[1..]),
         "api" if args.get(0).map(|s| s.as_str()) == Some("copycheck") => api_copycheck(&args[1..]),
         "api" if args.get(0).map(|s| s.as_str()) == Some("copycheck1") => api_copycheck1(&args[1..]),
         "api" if args.get(0).map(|s| s.as_str()) == Some("sortorder") => api_sortorder(&args[1..]),
